@@ -166,8 +166,8 @@ Definition goaway_larger (c : CF.conn) (id : Z) : bool := CF.k_goaway c && (CF.k
 (* clause ids, client:
    1 after a GOAWAY has been accepted every NewStream fails
    2 a GOAWAY(N) terminates only streams with id > N, and those end Unavailable + unprocessed
-   6 a GOAWAY with a non-zero even last-stream-id is a connection error   (see C14_bogus_goaway_ignored)
-   7 a later GOAWAY with a larger id is a connection error                (see C14_bogus_goaway_ignored) *)
+   6 a GOAWAY with a non-zero even last-stream-id is a connection error (the connection is closed)
+   7 a later GOAWAY with a larger id is a connection error (the connection is closed) *)
 Definition cclause (c : CF.conn) (o : CF.op) (ev : list CF.ev4) : list (Z * Z * bool) :=
   match o with
   | CF.ONew _ =>
@@ -253,8 +253,8 @@ Definition clauses (cfg : word) (ops obs : list word) : list (Z * Z * bool) :=
   | _ => [(0, 0, false)]
   end.
 
-(* clauses 6, 7 and 8 are the literal readings that the code does not satisfy *)
-Definition finding_clause (c : Z) : bool := (c =? 6) || (c =? 7) || (c =? 8).
+(* clause 8 is the literal reading that the code does not satisfy *)
+Definition finding_clause (c : Z) : bool := c =? 8.
 Definition holds_b (cfg : word) (ops obs : list word) : bool :=
   forallb (fun c => finding_clause (fst (fst c)) || snd c) (clauses cfg ops obs).
 
